@@ -43,9 +43,10 @@ class Skip(Exception):
 
 
 class Violation:
-    __slots__ = ("unit", "sig", "instance", "msg", "choices", "detail")
+    __slots__ = ("unit", "sig", "instance", "msg", "choices", "detail", "history")
 
     def __init__(self, unit, sig, instance, msg, choices, detail):
+        self.history = None  # choice prefixes executed earlier in the same worker task (first violation per sig only)
         self.unit = unit
         self.sig = sig
         self.instance = instance  # value based key (string)
@@ -265,6 +266,16 @@ def run_once(unit_name, fn, prefix, tier, seed, replaying=False):
     return ctx
 
 
+def _attach_history(ctx, seq, sigs_seen):
+    """Remember, for the first violation of every signature in a task, which executions ran before it in the same
+    process: if the violation does not reproduce in isolation the runner replays that history in a fresh process
+    (the library may carry hidden state from one call to the next - a cache, a shared default, a scratch buffer)."""
+    for v in ctx.violations:
+        if v.sig not in sigs_seen:
+            sigs_seen.add(v.sig)
+            v.history = list(seq[-4000:])
+
+
 def explore_subtree(unit_name, fn, root, tier, seed, bound=None, res=None, budget=None, max_exec=None):
     """Exhaustive DFS below ``root`` (a choice-index prefix).  ``bound`` = max
     number of non-default choices (None = full product).  With ``max_exec`` the
@@ -274,6 +285,7 @@ def explore_subtree(unit_name, fn, root, tier, seed, bound=None, res=None, budge
     res = res or Result()
     res.leftover = []
     stack = [tuple(root)]
+    seq, sigs_seen = [], set()  # executions of THIS task in order (a task runs in a freshly forked worker)
     t_end = None if budget is None else time.time() + budget
     nex = 0
     t_chunk = time.time() + 4.0
@@ -284,6 +296,8 @@ def explore_subtree(unit_name, fn, root, tier, seed, bound=None, res=None, budge
         nex += 1
         prefix = stack.pop()
         ctx = run_once(unit_name, fn, prefix, tier, seed)
+        _attach_history(ctx, seq, sigs_seen)
+        seq.append(tuple(ctx.choices))
         res.absorb_ctx(ctx, keep_sample=len(res.samples) < 3)
         ch = tuple(ctx.choices)
         dev = sum(1 for c in ch[: len(prefix)] if c)
@@ -305,12 +319,15 @@ def expand_frontier(unit_name, fn, tier, seed, bound, target):
     res = Result()
     frontier = deque([()])
     roots = []
+    seq, sigs_seen = [], set()
     t0 = time.time()
     while frontier and len(frontier) + len(roots) < target:
         if time.time() - t0 > 1.0 and len(frontier) > 1:
             break  # heavy executions: hand the subtrees to the workers now
         prefix = frontier.popleft()
         ctx = run_once(unit_name, fn, prefix, tier, seed)
+        _attach_history(ctx, seq, sigs_seen)
+        seq.append(tuple(ctx.choices))
         res.absorb_ctx(ctx, keep_sample=len(res.samples) < 3)
         ch = tuple(ctx.choices)
         dev = sum(1 for c in ch[: len(prefix)] if c)
